@@ -22,7 +22,12 @@ import (
 	"golang.org/x/tools/go/ssa"
 )
 
-const verifDir = "/verif"
+var verifDir = func() string {
+	if d := os.Getenv("GOSMT_VERIF_DIR"); d != "" {
+		return d
+	}
+	return "/verif"
+}()
 
 type TierCfg struct {
 	Params   map[string]int64 `json:"params"`
